@@ -31,7 +31,8 @@ for p in props:
         "evidence_file": "evidence/%s.json" % pid,
         "replay_cmd_template": "./check %s --replay {path}" % pid,
         "engine": "tv",
-        "level_claimed": {"category": P.LEVEL, "text": P.LEVEL_TEXT, "design_ref": "DESIGN.md section 4, " + pid},
+        "level_claimed": {"category": P.LEVEL, "text": P.LEVEL_TEXT + " What this check generates and compares: " + " ".join(P.RULE.split())[:900],
+                          "design_ref": "DESIGN.md section 4, " + pid},
         "level_note": P.LEVEL_NOTE,
         "technique": P.TECHNIQUE,
     })
